@@ -67,6 +67,10 @@ type Interp struct {
 	intrSeen   map[string]bool // intrinsics used
 	pathState  map[string]interface{}
 	mapPermute bool
+	// hash fully concrete messages with the real SHA-256 instead of the
+	// uninterpreted function (only for harnesses that never compare such
+	// digests with abstract ones)
+	shaRealConst bool
 }
 
 func newInterp(prog *ssa.Program, tt *TermTable) *Interp {
@@ -765,6 +769,26 @@ func (in *Interp) symLoad(p SymPtr) Value {
 		return copyVal(p.base[i])
 	}
 	tt := in.tt
+	// index given as an ite tree over constants: map the leaves through the table
+	allConst := true
+	for _, e := range p.base {
+		if !e.(*Term).IsConst() {
+			allConst = false
+			break
+		}
+	}
+	if allConst {
+		budget := 4096
+		memo := map[*Term]*Term{}
+		if r, ok := mapIteLeaves(tt, p.idx, func(c uint64) *Term {
+			if c < uint64(n) {
+				return p.base[c].(*Term)
+			}
+			return nil
+		}, &budget, memo); ok {
+			return r
+		}
+	}
 	same := func(a, b *Term) bool {
 		return a == b || (a.IsConst() && b.IsConst() && a.w == b.w && constEq(a, b))
 	}
@@ -941,4 +965,38 @@ func (in *Interp) posOf(p token.Pos) string {
 		return "?"
 	}
 	return in.prog.Fset.Position(p).String()
+}
+
+// mapIteLeaves rewrites f(t) for a term t that is an ite tree with constant
+// leaves (possibly under zero-extension) into an ite tree over f's values.
+func mapIteLeaves(tt *TermTable, t *Term, f func(c uint64) *Term, budget *int, memo map[*Term]*Term) (*Term, bool) {
+	if r, ok := memo[t]; ok {
+		return r, r != nil
+	}
+	*budget--
+	if *budget < 0 {
+		return nil, false
+	}
+	var res *Term
+	switch t.op {
+	case OConst:
+		if t.cb == nil {
+			res = f(t.c)
+		}
+	case OZext:
+		r, ok := mapIteLeaves(tt, t.a, f, budget, memo)
+		if ok {
+			res = r
+		}
+	case OIte:
+		a, ok1 := mapIteLeaves(tt, t.b, f, budget, memo)
+		if ok1 {
+			b, ok2 := mapIteLeaves(tt, t.d, f, budget, memo)
+			if ok2 {
+				res = tt.Ite(t.a, a, b)
+			}
+		}
+	}
+	memo[t] = res
+	return res, res != nil
 }
